@@ -34,6 +34,7 @@ int fmc_nthreads(void);
 int fmc_exploring(void);
 int fmc_tso_mode(void);                // 1 when stores may be delayed (x86-TSO runs, -S>0)
 uint64_t fmc_steps(void);
+void fmc_add_steps(uint64_t n);       // account transitions the engine cannot see (uninstrumented code under test)
 void fmc_count(uint64_t n);           // cases enumerated inside one execution (sequential harnesses)
 
 // virtual timer (timerfd replaced by an eventfd): inject k expirations
@@ -56,7 +57,8 @@ int fmc_env_choose(int nalts);
 // from fmc_on_quiescent() if the stuck state is the expected one.
 
 // heap oracle helpers
-int fmc_heap_is_live(const void* p);  // 1 live block, 0 freed/unknown
+int fmc_heap_is_live(const void* p);
+void fmc_heap_stats(uint64_t* allocs, uint64_t* frees, uint64_t* live_bytes);  // 1 live block, 0 freed/unknown
 void fmc_heap_check(const void* p, size_t n, const char* what);
 
 // oracle switches (bit mask), set before fmc_begin()
